@@ -267,10 +267,14 @@ package rapid
 //@   params impl
 
 //@ func (*Generator).String
+//@   immutable g
+//@   ensures [C15] true
 //@   ensures result == g.str
 //@   modifies g.str, g.strOnce
 
 //@ func (*Generator).value
+//@   immutable g
+//@   ensures [C15] true
 //@   noframe "runs the generator implementation, which may run user code"
 //@   assumes "generator implementations signal a failure only by panicking, never by recording it on the enclosing *T"
 //@   ensures t.failed == old(t.failed)
@@ -287,6 +291,8 @@ package rapid
 //@ define lenOK(n, minLen, maxLen) = implies(minLen >= 0, n >= minLen) && implies(maxLen >= 0, n <= maxLen)
 
 //@ func (*sliceGen).value
+//@   immutable g
+//@   ensures [C15] true
 //@   noframe "runs element generators, which may run user code"
 //@   requires [C03] g.maxLen < 0 || g.minLen <= g.maxLen
 //@   requires [C03] g.minLen < 1<<52
@@ -297,6 +303,8 @@ package rapid
 //@   loop 0 invariant [C03] repeat.minCount == minOf(g.minLen) && repeat.maxCount == maxOf(g.maxLen)
 
 //@ func (*mapGen).value
+//@   immutable g
+//@   ensures [C15] true
 //@   noframe "runs element generators, which may run user code"
 //@   requires [C03] g.key != nil || g.keyFn != nil
 //@   requires [C03] g.maxLen < 0 || g.minLen <= g.maxLen
@@ -319,23 +327,31 @@ package rapid
 //@   loop 0 decreases tries - n
 
 //@ func (*sampledGen).value
+//@   immutable g
+//@   ensures [C15] true
 //@   requires [C03] len(g.slice) > 0
 //@   panics invalidData: true
 //@   modifies drawn
 
 //@ func (*oneOfGen).value
+//@   immutable g
+//@   ensures [C15] true
 //@   noframe "runs element generators, which may run user code"
 //@   requires [C03] len(g.gens) > 0
 //@   panics any: true
 //@   modifies drawn, t.failed, t.cleanups, elems(t.cleanups), t.ctx, t.cancelCtx, t.draws
 
 //@ func (*ptrGen).value
+//@   immutable g
+//@   ensures [C15] true
 //@   noframe "runs element generators, which may run user code"
 //@   ensures [C03] implies(!g.allowNil, result != nil)
 //@   panics any: true
 //@   modifies drawn, t.failed, t.cleanups, elems(t.cleanups), t.ctx, t.cancelCtx, t.draws
 
 //@ func (*permGen).value
+//@   immutable g
+//@   ensures [C15] true
 //@   ensures [C03] len(result) == len(g.slice)
 //@   panics invalidData: true
 //@   modifies drawn
@@ -343,21 +359,29 @@ package rapid
 //@   loop 0 invariant [C03] m == ite(n - 1 < 0, 0, n - 1)
 
 //@ func (*boolGen).value
+//@   immutable g
+//@   ensures [C15] true
 //@   panics invalidData: true
 //@   modifies drawn
 
 //@ func (*integerGen).value
+//@   immutable g
+//@   ensures [C15] true
 //@   requires [C03] implies(g.signed, g.smin <= g.smax) && implies(!g.signed, g.umin <= g.umax)
 //@   panics invalidData: true
 //@   modifies drawn
 
 //@ func (*float64Gen).value
+//@   immutable g
+//@   ensures [C15] true
 //@   requires [C03] g.min <= g.max
 //@   ensures [C03] g.min <= result && result <= g.max
 //@   panics invalidData: true
 //@   modifies drawn
 
 //@ func (*float32Gen).value
+//@   immutable g
+//@   ensures [C15] true
 //@   requires [C03] g.min <= g.max && exact32(g.min) && exact32(g.max)
 //@   ensures [C03] g.min <= float64(result) && float64(result) <= g.max
 //@   panics invalidData: true
@@ -367,6 +391,8 @@ package rapid
 // strings.go
 
 //@ func (*stringGen).value
+//@   immutable g
+//@   ensures [C15] true
 //@   noframe "runs element generators, which may run user code"
 //@   requires [C03] g.maxRunes < 0 || g.minRunes <= g.maxRunes
 //@   requires [C03] g.minRunes < 1<<52
@@ -580,6 +606,8 @@ package rapid
 // combinators.go: Custom
 
 //@ func (*customGen).maybeValue
+//@   immutable g
+//@   ensures [C15] true
 //@   noframe "calls the user's generator function on a fresh inner T"
 //@   requires [C02] g.fn != nil
 //@   ensures [C02] now(t).failed == ""
@@ -603,6 +631,8 @@ package rapid
 //@   modifies drawn, t.failed, t.cleanups, elems(t.cleanups), t.ctx, t.cancelCtx, t.draws, lockmode[addr(t.mu)], stream(t.s)
 
 //@ func (*Generator).Draw
+//@   immutable g
+//@   ensures [C15] true
 //@   assumes-pre len(t.refDraws) == 0
 //@   noframe "draws through arbitrary generator implementations"
 //@   assumes "generator implementations signal a failure only by panicking, never by recording it on the enclosing *T"
@@ -939,8 +969,10 @@ package rapid
 //  - memory stored in the process-wide caches (expandedTables, ...) is never written afterwards.
 
 //@ onceguarded Generator.str by strOnce
+//@ onceguarded deferredGen.g by once
 
 //@ func expandRangeTable
+//@   checks-publication
 //@   nosafety "C15 is about what is written, not about index safety; the cache only ever holds []rune values"
 //@   assumes-pre forall(k, 0, len(t.R16), t.R16[k].Stride != 0) && forall(k, 0, len(t.R32), t.R32[k].Stride != 0)
 //@   ensures [C15] true
@@ -952,20 +984,9 @@ package rapid
 //@   loop 4 invariant [C15] -1 <= rangeindex && rangeindex < len(t.R32) && (arr(ret) == nil || !published[arr(ret)])
 //@   loop 5 invariant [C15] arr(ret) == nil || !published[arr(ret)]
 
-//@ func (*Generator).String@C15
-//@   immutable g
-//@   ensures [C15] true
-//@   modifies g.str, g.strOnce, onceIn, onceDone
-
-//@ func (*Generator).value@C15
-//@   immutable g
-//@   noframe "runs the generator implementation"
-//@   ensures [C15] true
-//@   panics any: true
-//@   modifies drawn, t.failed, t.cleanups, elems(t.cleanups), t.ctx, t.cancelCtx, t.draws, stream(t.s)
-
 //@ func (*deferredGen).value
 //@   immutable g
+//@   assumes-nonnil-calls "Deferred is given a non-nil constructor function that returns a non-nil generator"
 //@   noframe "runs the deferred generator"
 //@   ensures [C15] true
 //@   panics any: true
